@@ -210,6 +210,13 @@ def run_unit(unit, repo, tier="quick", seed=0, do_vacuity=True):
         if not oid:
             ln = prim[0]["line_start"] if prim else (spans[0]["line_start"] if spans else 0)
             kind, name = _enclosing(meta["functions"], lemmas, ln)
+            if kind is None:
+                # e.g. a trait-level contract (declared once, outside any extracted fn): use the
+                # function named by a secondary span ("at the end of the function body")
+                for s_ in spans:
+                    kind, name = _enclosing(meta["functions"], lemmas, s_.get("line_start", 0))
+                    if kind:
+                        break
             if kind == "fn":
                 oid = "%s/%s/safety" % (unit, name)
             elif kind == "lemma":
